@@ -132,6 +132,43 @@ Count(s, u) == Cardinality({i \in 1..Len(s) : s[i] = u})
 SameBag(s, t) == Len(s) = Len(t) /\ \A u \in Range(s) \cup Range(t) : Count(s, u) = Count(t, u)
 
 -----------------------------------------------------------------------------
+(* The log context's use of the tree (libs/log/src/log/context.cpp, impl/find_or_create_child.cpp).
+   A node of the context tree is labelled (name, optional level); here the label is the integer
+   name * 10 + level with name 0 = the empty name of the root, level 0..5 = verbose..fatal and
+   6 = no level.  log.doxygen: "A location is a list of fcppt::log::name values"; "An
+   fcppt::log::context associates locations with fcppt::log::optional_level values";
+   context.hpp, set(): "Updates the log level at a location. Note that every location below is also
+   updated."; constructor: "The root log level which will be the default for new log locations".
+   find_or_create_child(node, name): the first child with that name, else
+   node.push_back(context_tree_node{name, node.value().level()}) - a new location starts with the
+   CURRENT level of its parent (the reading C19's LogContext.tla takes, too).
+   context::set / object construction reach a location by folding find_or_create_child along it. *)
+LogName(v) == v \div 10
+LogLevel(v) == v % 10
+LogLabel(n, l) == n * 10 + l
+FirstChildNamed(t, n) ==
+  LET S == {i \in 1..Len(t.k) : LogName(t.k[i].v) = n}
+  IN IF S = {} THEN 0 ELSE CHOOSE i \in S : \A j \in S : i <= j
+RECURSIVE LogFind(_, _, _)      \* (tree, path reached so far, remaining names) -> [t, p]
+LogFind(t, p, names) ==
+  IF names = <<>> THEN [t |-> t, p |-> p]
+  ELSE LET node == Sub(t, p)
+           i == FirstChildNamed(node, Head(names))
+       IN IF i # 0 THEN LogFind(t, Append(p, i - 1), Tail(names))
+          ELSE LogFind(Put(t, p, [node EXCEPT !.k = Append(@, Leaf(LogLabel(Head(names), LogLevel(node.v))))]),
+                       Append(p, Len(node.k)), Tail(names))
+RECURSIVE SetLevelAll(_, _)
+SetLevelAll(t, l) == [v |-> LogLabel(LogName(t.v), l), k |-> [i \in 1..Len(t.k) |-> SetLevelAll(t.k[i], l)]]
+(* the path of an EXISTING location, or <<-1>> *)
+RECURSIVE LogPath(_, _, _)
+LogPath(t, p, names) ==
+  IF names = <<>> THEN p
+  ELSE LET i == FirstChildNamed(Sub(t, p), Head(names))
+       IN IF i = 0 THEN <<-1>> ELSE LogPath(t, Append(p, i - 1), Tail(names))
+(* the names from the root down to the node at path p (the root's empty name left out) *)
+LogNamesOf(t, p) == [j \in 1..Len(p) |-> LogName(Sub(t, SubSeq(p, 1, j)).v)]
+
+-----------------------------------------------------------------------------
 (* forests *)
 Dead == [live |-> FALSE, t |-> Leaf(0)]
 Live(t) == [live |-> TRUE, t |-> t]
@@ -188,6 +225,11 @@ Pre(f, a) ==
        [] a.op \in {"swap", "swap_free"} -> va /\ vb /\ ~Related(a)
        [] a.op \in {"copy_assign", "move_assign"} -> va /\ vb /\ (~Related(a) \/ BBelowA(a))
        [] a.op \in {"eq", "ne"} -> va /\ vb
+       [] a.op = "log_ctor" -> dd(a.d) /\ a.x \in 0..6
+       [] a.op \in {"log_create", "log_set"} ->
+            /\ va /\ a.ap = <<>> /\ a.x \in 0..6
+            /\ \A i \in 1..Len(a.ss) : a.ss[i] \in 1..9
+            /\ (a.op = "log_create" => a.ss # <<>>)
        [] OTHER -> FALSE
 
 (* Effect of an operation: new forest f, returned reference ret (NoRet if none), returned
@@ -254,6 +296,16 @@ Eff(f, a) ==
        [] a.op = "set_value" -> Simple(SetA([A EXCEPT !.v = a.x]))
        [] a.op = "eq" -> R(f, NoRet, FALSE, Equal(A, B), {})
        [] a.op = "ne" -> R(f, NoRet, FALSE, ~Equal(A, B), {})
+       [] a.op = "log_ctor" ->
+            \* context(root level, streams): the tree is the single root node with the empty name
+            Simple([f EXCEPT ![a.d] = Live(Leaf(LogLabel(0, a.x)))])
+       [] a.op = "log_create" ->
+            \* constructing a log object at location ss: find_location + find_child
+            LET r == LogFind(A, <<>>, a.ss) IN R(SetA(r.t), [s |-> a.as, p |-> r.p], FALSE, FALSE, {})
+       [] a.op = "log_set" ->
+            \* context::set(ss, x): reach (create) the location, then update every node below it
+            LET r == LogFind(A, <<>>, a.ss)
+            IN Simple(SetA(Put(r.t, r.p, SetLevelAll(Sub(r.t, r.p), a.x))))
 
 -----------------------------------------------------------------------------
 (* Model: all histories within the node bound. *)
@@ -389,6 +441,44 @@ OpLaws ==
          IsSorted(K, a.x = 1) /\ SameBag(K, At(st, a.as, a.ap).k)
     /\ a.op = "release" /\ a.d # 0 => Total(e.f) = Total(st)
     /\ a.op \in {"eq", "ne"} => e.f = st
+
+(* ---- the log context sub-model: only log_create / log_set on slot 1 (MC_TreeLog.cfg) ---- *)
+LogNames == {1, 2}
+LogLevels == {1, 6}
+LogLocs == {<<>>} \cup {<<n>> : n \in LogNames} \cup {<<n, m>> : n \in LogNames, m \in LogNames}
+LogOpsOf(f) ==
+  IF ~f[1].live THEN {[BaseOp EXCEPT !.op = "log_ctor", !.d = 1, !.x = l] : l \in LogLevels}
+  ELSE {[BaseOp EXCEPT !.op = "log_create", !.as = 1, !.ss = loc] : loc \in LogLocs \ {<<>>}}
+       \cup {[BaseOp EXCEPT !.op = "log_set", !.as = 1, !.ss = loc, !.x = l] : loc \in LogLocs, l \in LogLevels}
+LogInit == Init
+LogNext == \E a \in LogOpsOf(st) : Step(a)
+
+RECURSIVE LogWellFormed(_)
+LogWellFormed(t) ==    \* sibling names are distinct and not empty
+  /\ \A i \in 1..Len(t.k) : LogName(t.k[i].v) # 0 /\ \A j \in 1..Len(t.k) : i # j => LogName(t.k[i].v) # LogName(t.k[j].v)
+  /\ \A i \in 1..Len(t.k) : LogWellFormed(t.k[i])
+LogShape == st[1].live => LogName(st[1].t.v) = 0 /\ LogWellFormed(st[1].t)
+LogOpLaws ==
+  \A a \in LogOpsOf(st) :
+    LET e == Eff(st, a)
+        t0 == st[1].t
+        t1 == e.f[1].t
+        p == LogPath(t1, <<>>, a.ss)
+    IN a.op # "log_ctor" =>
+       /\ Pre(st, a)
+       /\ p # <<-1>> /\ LogNamesOf(t1, p) = a.ss                     \* the location exists afterwards
+       /\ \A q \in Range(PathsOf(t0)) : HasPath(t1, q) /\ LogName(Sub(t1, q).v) = LogName(Sub(t0, q).v)
+       /\ a.op = "log_create" =>
+            /\ e.ret = [s |-> 1, p |-> p]
+            /\ \A q \in Range(PathsOf(t0)) : Sub(t1, q).v = Sub(t0, q).v   \* no level changes
+            /\ \A q \in Range(PathsOf(t1)) :                                \* a new node has its parent's level
+                 ~HasPath(t0, q) => LogLevel(Sub(t1, q).v) = LogLevel(Sub(t1, Front(q)).v)
+            /\ Eff(e.f, a).f = e.f                                          \* creating again changes nothing
+       /\ a.op = "log_set" =>
+            \A q \in Range(PathsOf(t1)) :
+              IF IsPrefix(p, q) THEN LogLevel(Sub(t1, q).v) = a.x             \* "every location below is also updated"
+              ELSE IF HasPath(t0, q) THEN Sub(t1, q).v = Sub(t0, q).v          \* and nothing else;
+              ELSE LogLevel(Sub(t1, q).v) = LogLevel(Sub(t1, Front(q)).v)       \* locations created on the way inherit
 
 (* script emission: as a CONSTRAINT this prints the operation history of every generated
    transition (the constraint is evaluated on every successor state) *)
